@@ -366,7 +366,7 @@ func c43(c *Ctx) {
 				return false
 			}
 			fv, ok := u.X.(*ssa.FreeVar)
-			return ok && fv.Name() == "resourceName"
+			return ok && freeVarRole(fv) == "resourceName"
 		}
 		nCreate := 0
 		for _, in := range instrsWhere(body, func(in ssa.Instruction) bool { _, ok := in.(*ssa.MapUpdate); return ok }) {
